@@ -394,6 +394,15 @@ func (e *Engine) Sweep(tier string, seed uint64, res *report.Result) {
 			What: "the relation measured on Proxy.Differs does not recognise a proxy's bound/configured address as the spelling it came from: hypothesis spellingOK of theorem C17_spelling fails",
 			Sig:  "e4:spellingOK"})
 	}
+	if len(e.SameBad) > 0 {
+		// (model-free; reported under whichever property runs this engine: a change of the listen
+		// address that Differs does not see is not carried out - C03, C17 -, one it sees where
+		// there is none replaces a proxy for nothing - C17)
+		res.Failures = append(res.Failures, report.Failure{Kind: "oracle", Ops: []string{"(address table)"},
+			Model: "same address iff same port and (both wildcard or equal IP)", Impl: strings.Join(e.SameBad, "; "),
+			What: "Proxy.Differs misjudges whether two listen addresses denote the same address: " + e.SameBad[0],
+			Sig:  "e4:differs-relation"})
+	}
 	if !e.PortsOK {
 		res.Failures = append(res.Failures, report.Failure{Kind: "disagreement", Ops: []string{"(address table)"},
 			What: "an address reported by a started listener is not a spelling of the measured address table with the same port: hypothesis boundOK of theorem C05_reachable_ports fails",
